@@ -354,7 +354,13 @@ class HAPServerHandler:
         logger.debug("%s: Pairing [3/5]", self.client_address)
         encrypted_data = tlv_objects[HAP_TLV_TAGS.ENCRYPTED_DATA]
 
-        session_key = self.accessory_handler.srp_verifier.get_session_key_bytes()
+        verifier = self.accessory_handler.srp_verifier
+        if verifier is None or not verifier.verified:
+            # M5 is only acceptable after the M3 of this very exchange succeeded.
+            self._send_authentication_error_tlv_response(HAP_TLV_STATES.M6)
+            return
+
+        session_key = verifier.get_session_key_bytes()
         hkdf_enc_key = hap_hkdf(session_key, self.PAIRING_3_SALT, self.PAIRING_3_INFO)
 
         cipher = ChaCha20Poly1305(hkdf_enc_key)
